@@ -43,6 +43,14 @@ pub const CHECKS: &[(&str, RunFn, JudgeFn)] = &[
 ];
 
 pub fn judge_for(property: &str) -> Option<JudgeFn> {
+    // VERIF_LENIENT=1 (development aid): replay with known-finding attribution on, as the search does
+    if std::env::var("VERIF_LENIENT").is_ok() {
+        match property {
+            "C01" => return Some(checks::c01::judge),
+            "C08" => return Some(checks::c08::judge),
+            _ => {}
+        }
+    }
     CHECKS.iter().find(|(id, _, _)| *id == property).map(|(_, _, j)| *j)
 }
 
@@ -104,6 +112,18 @@ fn main() {
                 "c12currev" => checks::c12::worker_curated(true),
                 "c15serve" => checks::c15::serve(),
                 _ => usage(),
+            }
+        }
+        "dump" => {
+            // development aid: print generated rules of one generator
+            let n: usize = args.get(3).and_then(|s| s.parse().ok()).unwrap_or(20);
+            let rules = match args[2].as_str() {
+                "samefield" => gen::sample_values(1, n, &gen::rule_same_field_focus()),
+                "nested" => gen::sample_values(1, n, &gen::rule_nested_focus(true)),
+                _ => usage(),
+            };
+            for r in rules {
+                println!("{}\n---", r.text());
             }
         }
         "replay" => {
